@@ -241,13 +241,23 @@ def explore(rng, transport, profile, flavor, runner_cls, max_cmds=70):
                 closed = True
             continue
         # server actions
-        if not hello_sent and rng.random() < 0.5 and not short:
+        if info.get('ltrap') and not getattr(R, 'ltrap_fired', False):
+            pass                            # the server stays silent until the armed notification has been dispatched
+        elif not hello_sent and rng.random() < 0.5 and not short:
             srv.push(hello_text(rng, scaps, clean=(flavor in ('normal', 'late-ready', 'close'))), chunk=False)
             hello_sent = True
         elif hello_sent and finished and R.conn_result == 'ok' and rng.random() < 0.35:
             pend = srv.pending_ids(R.ctl.wire)
             r = rng.random()
-            if pend and r < 0.6:
+            if pend and flavor in ('odd', 'fault') and rng.random() < 0.12:
+                # a correctly framed <rpc-reply> for a pending request whose BODY is not XML (control character, mismatched tags):
+                # it may complete the request, but the caller must not be able to read it as data
+                mid = rng.choice(pend)
+                srv.answered.append(mid)
+                bad = rng.choice(['<data><out>show version\x1b[0m done\x08</out></data>', '<data><a><b></a></data>', '<data>\x00</data>', '<data>&nbsp;</data>'])
+                srv.push('<rpc-reply message-id="%s" xmlns="%s">%s</rpc-reply>' % (mid, BASE_NS, bad))
+                info['bad_reply_body'] = info.get('bad_reply_body', 0) + 1
+            elif pend and r < 0.6:
                 mid = rng.choice(pend)
                 srv.answered.append(mid)
                 srv.push(reply_text(rng, mid, len(srv.answered)))
@@ -265,7 +275,9 @@ def explore(rng, transport, profile, flavor, runner_cls, max_cmds=70):
                     srv.push(odd)
         # a request issued from inside the dispatch of the first notification (before any other request exists)
         if finished and R.conn_result == 'ok' and not closed and n_req == 0 and 'ltrap' not in info and flavor in ('normal', 'odd') and hello_sent:
-            info['ltrap'] = rng.random() < 0.25
+            # (armed only with nothing else in flight: the notification must be the only message of its reads, because the model
+            # places the listener's request before the whole read step)
+            info['ltrap'] = len(srv.out) == 0 and rng.random() < 0.25
             if info['ltrap']:
                 do(['ltrap'])
                 srv.notifs += 1
